@@ -4,6 +4,7 @@
 From Base Require Import Prelude Sx Json JsonText Base64.
 From C02 Require Import Model Proofs.
 From C05 Require Import Proofs.
+From C01 Require Roundtrip.
 
 (** A signing call that reports an error leaves the object as it was. *)
 Theorem C02_sign_error_atomic :
@@ -95,3 +96,20 @@ Theorem C02_verify_ignores_unsigned :
 Proof. exact verify_ignores_unsigned. Qed.
 Eval compute in "PA:C02_verify_ignores_unsigned"%string.
 Print Assumptions C02_verify_ignores_unsigned.
+
+(** With ideal signatures (whatever verifies was honestly signed), a change to the signed
+    content makes verification fail; changes confined to `unsigned` do not (above). *)
+Theorem C02_tamper_detected :
+  forall verify (Signed : str -> str -> str -> Prop),
+  (forall p m s, verify p m s = true -> Signed p m s) ->
+  forall pkm o o' sigmap e,
+  wf_obj o -> wf_obj o' ->
+  C01.Roundtrip.ints_ok (JObj o) = true -> C01.Roundtrip.ints_ok (JObj o') = true ->
+  C01.Roundtrip.jdepth (JObj o) < 128 -> C01.Roundtrip.jdepth (JObj o') < 128 ->
+  (forall p m s, Signed p m s -> m = signing_bytes o) ->
+  strip o' <> strip o ->
+  lookup k_signatures o' = Some (JObj sigmap) -> In e (keys sigmap) ->
+  verify_json verify pkm o' = Err 0.
+Proof. exact tamper_detected. Qed.
+Eval compute in "PA:C02_tamper_detected"%string.
+Print Assumptions C02_tamper_detected.
